@@ -132,6 +132,7 @@ type World struct {
 	Knobs Knobs
 	Prop  string
 	Sess  *engine.Session
+	longLogSeen bool
 	// OpenFault: "log" / "data" while a statement runs whose open of that file is to fail once
 	OpenFault string
 
@@ -1033,6 +1034,10 @@ func (w *World) hookWalIO(f any, kind int, b []byte) {
 		w.yieldPoint()
 	case storage.VerifWalFlushDone:
 		w.stmtLogged = true
+		if len(h.shadow.data) > 3<<20 && !w.longLogSeen {
+			w.longLogSeen = true
+			w.count("probe_log_over_3MB")
+		}
 		if w.mon.Durable && w.cur == nil && w.inStmt && h.shadow.synced != len(h.shadow.data) {
 			w.raise(w.Prop, "O-durable", fmt.Sprintf("a %s statement finished its log append with %d of %d log bytes not covered by an fsync: a crash now loses acknowledged work", w.stmtKind, len(h.shadow.data)-h.shadow.synced, len(h.shadow.data)),
 				map[string]string{"how": "unsynced-log", "stmt": w.stmtKind})
